@@ -211,9 +211,22 @@ mut("reverse-dns-not-reversed", "C05", A + "identifier.rs", "\t\t\t\t\t\t.octets
 mut("subject-attributes-dropped", "C01", A + "acme_proto.rs", "\t\t&cert.subject_attributes,\n\t)?;", "\t\t&Default::default(),\n\t)?;", "CSR without the configured subject attributes")
 mut("kp-reuse-ignored", "C01", A + "acme_proto/certificate.rs", "\tif cert.kp_reuse {", "\tif cert.kp_reuse && cert.identifiers.len() > 99 {", "a usable key is regenerated although kp_reuse is set")
 
+# ---- part 3: tacd
+T = "tacd/src/"
+mut("tacd-no-trim", "C16", T + "main.rs", "\tlet line = input.trim().to_string();", "\tlet line = input.to_string();", "domain / extension read from a file or stdin keep their line terminator")
+mut("tacd-key-type-ignored", "C16", T + "main.rs", "X509Certificate::from_acme_ext(&domain, &ext, crt_signature_alg, crt_digest)", "X509Certificate::from_acme_ext(&domain, &ext, DEFAULT_CRT_KEY_TYPE, crt_digest)",
+    "--crt-signature-alg ignored")
+mut("tacd-digest-ignored", "C16", T + "main.rs", "X509Certificate::from_acme_ext(&domain, &ext, crt_signature_alg, crt_digest)", "X509Certificate::from_acme_ext(&domain, &ext, crt_signature_alg, DEFAULT_CRT_DIGEST)",
+    "--crt-digest ignored")
+mut("tacd-expired-at-once", "C16", "acme_common/src/crypto/openssl_certificate.rs", "Asn1Time::days_from_now(super::CRT_NB_DAYS_VALIDITY)?;", "Asn1Time::days_from_now(0)?;", "notAfter == notBefore == now")
+mut("tacd-serial-accept", "C17", T + "openssl_server.rs", ["\t\t\t\tthread::spawn(move || {", "\t\t\t\t});\n\t\t\t};"], ["\t\t\t\tlet handle = move || {", "\t\t\t\t};\n\t\t\t\thandle();\n\t\t\t};"],
+    "connections handled one after the other in the accept loop: a stalled client blocks every later one")
+
 M[:] = [m for m in M if m["old"] is not None and m["why"] != "placeholder"]
 if os.environ.get("SWEEP_PART") == "2":
-    M[:] = M[[m["name"] for m in M].index("always-newaccount"):]
+    M[:] = M[[m["name"] for m in M].index("always-newaccount"):[m["name"] for m in M].index("tacd-no-trim")]
+if os.environ.get("SWEEP_PART") == "3":
+    M[:] = M[[m["name"] for m in M].index("tacd-no-trim"):]
 
 
 def sh(cmd, **kw):
